@@ -358,6 +358,18 @@ class Memory:
             raise GoPanic('write-to-readonly', obj.label)
         if self.writes is not None:
             self.writes.append((obj, off, n))
+        ps = getattr(self.ex, 'pstate', None)
+        if ps and 'tracked' in ps:
+            # shared-state bookkeeping of the logical-thread scheduler: buffers that become reachable from the tracked
+            # range are shared too; stores into such buffers must hold the write lock
+            pv = v.ptr if isinstance(v, Slice) else v
+            if isinstance(pv, Ptr) and pv.obj is not None and pv.obj is not obj and not pv.obj.ro:
+                for (oid, lo, hi) in ps['tracked']:
+                    if obj.id == oid and off < hi and off + n > lo:
+                        ps.setdefault('tracked_objs', set()).add(pv.obj.id)
+                        break
+            if self.ex.sched is not None and obj.id in ps.get('tracked_objs', ()):
+                self.ex.sched.access_pointee(obj, True)
         if obj.meta and 'pooled' in obj.meta and not obj.meta.get('pooled_reported'):
             obj.meta['pooled_reported'] = True
             self.ex.events.append(('assert', 'no use after sync.Pool.Put'))
@@ -476,6 +488,7 @@ class Executor:
         self.max_path_instrs = 3000000
         self.want_models = 1
         self.model_refiners = []
+        self.model_unrefined = False
         self.init_done = False
         self.global_snapshot = None
         self.called = set()
@@ -1664,8 +1677,9 @@ class Executor:
             rec['trace'] = list(self.trace)
             rec['events'] = list(self.events)
             if rec['status'] == 'ok' and self.want_models > 0 and any(e[0] == 'reach' for e in self.events):
+                self.model_unrefined = False
                 mv = self.get_model_values()
-                if mv is not None:
+                if mv is not None and not self.model_unrefined:
                     rec['model'] = mv
                     self.want_models -= 1
             if self.inconclusive:
@@ -1688,6 +1702,8 @@ class Executor:
             try:
                 extra = ref(self, m, None)
             except Exception:
+                if os.environ.get('VERIF_DEBUG'):
+                    import traceback; traceback.print_exc()
                 extra = None
             if extra:
                 self.solver.push()
@@ -1696,6 +1712,10 @@ class Executor:
                 if self.check() == z3.sat:
                     m = self.solver.model()
                     keep += list(extra)
+                else:
+                    # the path needs an instance of an uninterpreted predicate that the refiner cannot make real
+                    # (e.g. a curve point with a one-byte x): its model is no translator-validation witness
+                    self.model_unrefined = True
                 self.solver.pop()
         try:
             m = self.diversify(m, keep)
